@@ -390,6 +390,9 @@ package hackpadfs
 //@   ensures "list-error" implies(old(raStatErr(world(), fs, path)) == nil && old(raIsDir(world(), fs, path)) && old(raListErr(world(), fs, path)) != nil, isPathError(err) && pathOf(err) == path)
 //@   ensures "empty-dir" [C08] implies(old(raStatErr(world(), fs, path)) == nil && old(raIsDir(world(), fs, path)) && old(raListErr(world(), fs, path)) == nil && len(old(raList(world(), fs, path))) == 0 &&
 //@                     old(retW("hackpadfs.Remove", 0, raW2(world(), fs, path), fs, path)) != nil && !errIs(old(retW("hackpadfs.Remove", 0, raW2(world(), fs, path), fs, path)), ErrNotExist), err != nil)
+//@   ensures "empty-dir-exact" [C08] implies(old(raStatErr(world(), fs, path)) == nil && old(raIsDir(world(), fs, path)) && old(raListErr(world(), fs, path)) == nil && len(old(raList(world(), fs, path))) == 0,
+//@                     ite(old(retW("hackpadfs.Remove", 0, raW2(world(), fs, path), fs, path)) == nil || errIs(old(retW("hackpadfs.Remove", 0, raW2(world(), fs, path), fs, path)), ErrNotExist), err == nil,
+//@                         err == old(retW("hackpadfs.Remove", 0, raW2(world(), fs, path), fs, path))))   // a directory that vanished before the final Remove counts as removed, as with os.RemoveAll; any other error is Remove's
 //@   ensures "first-child-error" [C08] implies(old(raStatErr(world(), fs, path)) == nil && old(raIsDir(world(), fs, path)) && old(raListErr(world(), fs, path)) == nil && len(old(raList(world(), fs, path))) > 0 &&
 //@                     raChildErr(old(raW2(world(), fs, path)), fs, path, old(raList(world(), fs, path))[0]) != nil, err != nil)
 //@   nopanic
